@@ -48,6 +48,38 @@ func NewEngine(prop string, o *common.Opts, types []TypeInfo) (*Engine, error) {
 	return e, nil
 }
 
+type caseID struct {
+	ti   TypeInfo
+	seed int64
+}
+
+// cases enumerates (type, per-case seed) pairs: perType random ones per registered type, or exactly
+// the one named by a replay file ({"type","seed"} inside its "case").
+func (e *Engine) cases(perType int) []caseID {
+	if e.Opts.Replay != "" {
+		var c struct {
+			Type string `json:"type"`
+			Seed int64  `json:"seed"`
+		}
+		if err := common.ReadReplay(e.Opts.Replay, &c); err != nil {
+			e.Res.Fatal(e.Opts.Out, err)
+		}
+		for _, ti := range e.Types {
+			if ti.Name == c.Type {
+				return []caseID{{ti, c.Seed}}
+			}
+		}
+		e.Res.Fatal(e.Opts.Out, fmt.Errorf("replay: type %s is not registered in this run (generated types depend on -seed)", c.Type))
+	}
+	var out []caseID
+	for _, ti := range e.Types {
+		for i := 0; i < perType; i++ {
+			out = append(out, caseID{ti, e.Rng.Int63()})
+		}
+	}
+	return out
+}
+
 // C03Case is one round-trip case (also the replay format).
 type C03Case struct {
 	Type  string `json:"type"`
@@ -81,10 +113,10 @@ func (e *Engine) RunC03(perType int) {
 	}
 	var lines []string
 	var pend []pending
-	for _, ti := range e.Types {
+	for _, cid := range e.cases(perType) {
+		ti, seed := cid.ti, cid.seed
 		s := e.St[ti.Name]
-		for i := 0; i < perType; i++ {
-			seed := e.Rng.Int63()
+		{
 			c, v := e.genValue(ti, seed)
 			text := StructText(v, s)
 			cs := C03Case{Type: ti.Name, Value: trunc(text), Seed: seed}
@@ -177,4 +209,17 @@ func unhex(s string) ([]byte, bool) {
 	b := make([]byte, len(s)/2)
 	_, err := fmt.Sscanf(s, "%x", &b)
 	return b, err == nil
+}
+
+func init() {
+	Runners["C03"] = func(e *Engine) {
+		n := 150
+		if e.Opts.Thorough() {
+			n = 3000
+		}
+		e.RunC03(n)
+		e.Res.Rule = "per generated struct type (framework protocol structs + structs of random IDL modules compiled by the working-tree tars2go): " +
+			"type-directed random values (boundary integers, random/NaN/±0/Inf floats, strings 0..300 bytes incl. arbitrary bytes, " +
+			"nil/empty/large containers, optional members at their default with p=1/3); non-trivial = distinct (type, encoded bytes), non-empty"
+	}
 }
